@@ -8,6 +8,8 @@
 void harness (void)
 {
     VF_IN_ARRAY (vh_u32, in_mem, VF_WORDS);
+    VF_DECL_DECOY;
+    VF_DECL_PAL;
     VH_IN (vh_u32, in_x);
     VH_IN (vh_u32, in_y);
     VH_IN (vh_u32, in_up);
